@@ -225,6 +225,23 @@ def outside_documented(ivs, rows):
     return None
 
 
+def d2_overread(k):
+    """tj3DecompressToYUVPlanes8: does the copy-out read pw > iw bytes from a temporary row?
+    (iw = width_in_blocks*dctsize, pw = plane width of the scaled image; model/ExtentTmp.v)"""
+    g = lambda n, d=0: int(k.get(n, d))
+    w, ss, num, den = g("w"), g("ss"), g("num", 1), g("den", 1)
+    dct = 8 * num // den
+    maxh = MCUW[ss] // 8
+    sw = scaled(w, (num, den))
+    for c in range(1 if ss == TJSAMP_GRAY else 3):
+        h = maxh if c == 0 else 1
+        iw = ((w * h + maxh * 8 - 1) // (maxh * 8)) * dct
+        pw = padto(sw, maxh) if c == 0 else padto(sw, maxh) // maxh
+        if pw > iw:
+            return True
+    return False
+
+
 def describe(line, level):
     k = kvs(line)
     kind = line.split()[0]
@@ -248,6 +265,13 @@ def judge(ctx, line, level, impl):
     k = kvs(line)
     sigbase = "%s:%s" % (kind, k.get("api", k.get("k", "")) + ("/" + k["fn"] if "fn" in k else ""))
     rep = {"case": line, "level": level, "impl": impl, "config": describe(line, level)}
+    if impl.startswith("segv buf=-1"):
+        # the fault is NOT on one of the guard pages: the library crashed on its own memory
+        crop = "y" if any(int(k.get(x, 0)) for x in ("cx", "cy", "cw", "ch")) else "n"
+        ctx.violation("SIGSEGV inside the library (fault address away from the guarded caller buffers) on valid arguments: %s"
+                      % describe(line, level), rep,
+                      signature="libcrash:%s%s:%s:crop=%s:fast=%s:ss=%s" % (k.get("api", ""), k.get("bits", ""), level, crop, k.get("fast", "0"), k.get("ss", "")))
+        return True
     if impl.startswith("segv"):
         ctx.violation("access to memory adjacent to a caller buffer (fault on a guard page): %s -> %s" % (describe(line, level), impl),
                       rep, signature="segv:" + sigbase + ":" + level)
@@ -270,22 +294,77 @@ def judge(ctx, line, level, impl):
             ctx.violation("byte %d of buffer %d is outside every documented row (row padding / after the last row) but was modified: %s"
                           % (x, bid, describe(line, level)), rep, signature="padding:" + sigbase + ":" + level)
             bad = True
-    if "det=same" not in tail:
+    if "det=same" not in tail and k.get("api", "").startswith("d2") and d2_overread(k):
+        ctx.violation("tj3DecompressToYUVPlanes8 copies pw > iw bytes per row out of its temporary buffer (heap over-read, "
+                      "model: C11_tmpbuf_copyout_refuted); the bytes read past the rows end up in the caller's planes and differ "
+                      "from run to run: %s" % describe(line, level), rep, signature="tmpbuf-overread:" + k.get("api"))
+        bad = True
+    elif "det=same" not in tail:
         ctx.violation("the result depends on bytes outside the documented source extent / on the previous destination contents: %s"
                       % describe(line, level), rep, signature="dependence:" + sigbase + ":" + level)
         bad = True
     return bad
 
 
+# ------------------------------------------------------------------ ASan stream
+def asan_stream(ctx, cases):
+    """the temporary-buffer paths of the raw-data entry points (C code) under AddressSanitizer:
+    replays the witness of C11_tmpbuf_copyout_refuted and looks for siblings"""
+    exe = ctx.cc("c11", ["c11.c"], "asan")
+    sub = [c for c in cases if c.startswith("yuv ") and kvs(c).get("api", "")[:2] in ("d2", "cf")]
+    i, restarts, nrep = 0, 0, 0
+    while i < len(sub) and restarts < 8:
+        inp = ("\n".join(sub[i:]) + "\n").encode()
+        rc, out, err = sh2([exe], input=inp, timeout=1500, env={"ASAN_OPTIONS": "detect_leaks=0:abort_on_error=0"})
+        n = out.decode().count("\n")
+        ctx.count("yuv-asan", min(n, len(sub) - i), None)
+        if rc == 0 and n >= len(sub) - i:
+            break
+        j = min(i + n, len(sub) - 1)
+        line = sub[j]
+        k = kvs(line)
+        rep = {"case": line, "level": "asan", "stderr": err[:1500], "config": describe(line, "asan-build")}
+        if "AddressSanitizer" in err:
+            what = err.split("ERROR: AddressSanitizer:")[1].split("\n")[0].strip() if "ERROR: AddressSanitizer:" in err else "error"
+            frame = ""
+            for l in err.split("\n"):
+                if " in tj3" in l or " in j" in l:
+                    frame = l.split(" in ")[1].split()[0]
+                    break
+            if k.get("api", "").startswith("d2") and d2_overread(k):
+                ctx.violation("AddressSanitizer: %s in %s: tj3DecompressToYUVPlanes8 copies pw > iw bytes per row out of its "
+                              "temporary buffer (C11_tmpbuf_copyout_refuted): %s" % (what[:80], frame, describe(line, "asan-build")),
+                              rep, signature="tmpbuf-overread:" + k.get("api"))
+            else:
+                ctx.violation("AddressSanitizer: %s in %s: %s" % (what[:80], frame, describe(line, "asan-build")), rep,
+                              signature="asan:%s:%s" % (k.get("api"), frame))
+        else:
+            ctx.violation("the ASan build crashed (rc=%d) on: %s" % (rc, describe(line, "asan-build")), rep,
+                          signature="asan-crash:" + k.get("api", ""))
+        nrep += 1
+        i = j + 1
+        restarts += 1
+    ctx.cov["asan_cases"] = len(sub)
+    ctx.cov["asan_reports"] = nrep
+
+
 # ------------------------------------------------------------------------- run
 def run(ctx):
-    ctx.regen(["Align", "Tail"])
+    for g in ("Align", "Tail"):
+        if not ctx.regen([g]):
+            # a failed translator leaves no .v; drop the compiled file of an earlier run too, so
+            # that the obligations are not discharged against stale facts
+            for ext in (".vo", ".vos", ".vok", ".glob"):
+                try:
+                    os.remove(os.path.join(core.COQ, "gen", "Gen%s%s" % (g, ext)))
+                except OSError:
+                    pass
     ctx.prove()
     drv = ctx.model_driver()
     exe = ctx.cc("c11", ["c11.c"], "simd")
     runs = [(name, exe, env) for name, env in LEVELS]
-    if ctx.thorough():
-        runs.append(("plain-build", ctx.cc("c11", ["c11.c"], "plain"), {}))
+    # the build without SIMD has ALIGN_SIZE 8: different padding of the internal rows and pools
+    runs.append(("plain-build", ctx.cc("c11", ["c11.c"], "plain"), {}))
 
     if ctx.replay:
         r = json.load(open(ctx.replay))
@@ -363,6 +442,8 @@ def run(ctx):
             ctx.count(stream, 1, (stream, width % 32, k.get("pf"), k.get("side"), impl.partition(" ; ")[0][:120]))
             if i % 1499 == 0 and name == "default":
                 ctx.sample({"case": line, "impl": impl[:300]})
+    if not ctx.replay or "asan" in str(json.load(open(ctx.replay)).get("level")):
+        asan_stream(ctx, cases)
     if mlines is not None:
         ctx.cov["traces_validated_against_impl"] = len(cases) * len(runs)
     ctx.cov["model_impl_disagreements"] = disagree
